@@ -267,3 +267,14 @@ package udpip
 //@   loop 5 invariant forall j int, k int :: 0 <= j && j < k && k < rangeint_iter ==> pkts[j] != pkts[k]
 //@   loop 5 invariant forall j int, k int :: rangeint_iter+written+1 <= j && j < k && k < toWrite__now+written+1 ==> pkts[j] != pkts[k]
 //@   loop 5 invariant forall j int, k int :: 0 <= j && j < rangeint_iter && rangeint_iter+written+1 <= k && k < toWrite__now+written+1 ==> pkts[j] != pkts[k]
+
+//@ # ---- C15: a link with a BFD session is up exactly when that session is
+//@ import bfd "github.com/scionproto/scion/router/bfd"
+//@ func (*connectedLink).IsUp
+//@   props C15
+//@   requires l != nil
+//@   ensures result == (l.bfdSession == nil || l.bfdSession.localState == 3)
+//@ func (*detachedLink).IsUp
+//@   props C15
+//@   requires l != nil
+//@   ensures result == (l.bfdSession == nil || l.bfdSession.localState == 3)
